@@ -11,6 +11,7 @@ import Driver.Ansi
 import Driver.Http
 import Driver.Term
 import Driver.Walk
+import Driver.Bind
 /-
 fzfmodel: reads protocol lines `<area> <op> <args>... => <impl answer>` on stdin and
 prints, per line, `EQ|NE PASS|FAIL|NA | model=<answer> | <reason>`.
@@ -31,6 +32,7 @@ def dispatch (ctx : Driver.Algo.Ctx) (area op : String) (args impl : List String
   | "http" => Driver.Http.run op args impl
   | "term" => Driver.Term.run ctx op args impl
   | "walk" => Driver.Walk.run op args impl
+  | "bind" => Driver.Bind.run op args impl
   | _ => { model := "bad-area" }
 
 def processLine (ctx : Driver.Algo.Ctx) (line : String) : String :=
